@@ -210,6 +210,14 @@ pub mod utils;
 
 pub use error::Error;
 
+// Verification hook (off unless built with `--cfg dryoc_verif`): compiles an
+// externally supplied harness file into the crate so that solver harnesses can
+// name private items. Not part of the public API.
+#[cfg(dryoc_verif)]
+mod verif_harness {
+    include!(env!("DRYOC_VERIF_HARNESS"));
+}
+
 #[cfg(test)]
 mod tests {
 
